@@ -41,6 +41,9 @@ const (
 	kRelayTransferring
 )
 
+// kRelayServerTimeout is how long the relay waits for the server's config, the same as the client's default timeout.
+const kRelayServerTimeout = 20 * time.Second
+
 // TrzszRelay is a relay that supports trzsz ( trz / tsz ).
 type TrzszRelay struct {
 	tmuxMode        tmuxModeType
@@ -282,8 +285,8 @@ func decodeRelayBufferString(expectType string, line []byte) (string, error) {
 	return string(data), nil
 }
 
-func recvStringFromBuffer(buffer *trzszBuffer, expectType string, mayHasJunk bool) (string, error) {
-	line, err := buffer.readLine(mayHasJunk, nil)
+func recvStringFromBuffer(buffer *trzszBuffer, expectType string, mayHasJunk bool, timeout <-chan time.Time) (string, error) {
+	line, err := buffer.readLine(mayHasJunk, timeout)
 	if err != nil {
 		return "", err
 	}
@@ -298,8 +301,8 @@ func recvStringFromBuffer(buffer *trzszBuffer, expectType string, mayHasJunk boo
 	return decodeRelayBufferString(expectType, line)
 }
 
-func recvStringForWindows(buffer *trzszBuffer, expectType string) (string, error) {
-	line, err := buffer.readLineOnWindows(nil)
+func recvStringForWindows(buffer *trzszBuffer, expectType string, timeout <-chan time.Time) (string, error) {
+	line, err := buffer.readLineOnWindows(timeout)
 	if err != nil {
 		return "", err
 	}
@@ -311,17 +314,21 @@ func recvStringForWindows(buffer *trzszBuffer, expectType string) (string, error
 }
 
 func (r *TrzszRelay) recvStringFromClient(expectType string) (string, error) {
+	// the user may be choosing files in a dialog, so there is no timeout while waiting for the client
 	if r.trigger.winServer && !r.tunnelConnected.Load() {
-		return recvStringForWindows(r.stdinBuffer, expectType)
+		return recvStringForWindows(r.stdinBuffer, expectType, nil)
 	}
-	return recvStringFromBuffer(r.stdinBuffer, expectType, true)
+	return recvStringFromBuffer(r.stdinBuffer, expectType, true, nil)
 }
 
 func (r *TrzszRelay) recvStringFromServer(expectType string) (string, error) {
+	// the server answers the action at once; if it has died the relay must not stay in the handshake forever
+	timer := time.NewTimer(kRelayServerTimeout)
+	defer timer.Stop()
 	if (r.clientIsWindows || r.trigger.winServer) && !r.tunnelConnected.Load() {
-		return recvStringForWindows(r.stdoutBuffer, expectType)
+		return recvStringForWindows(r.stdoutBuffer, expectType, timer.C)
 	}
-	return recvStringFromBuffer(r.stdoutBuffer, expectType, true)
+	return recvStringFromBuffer(r.stdoutBuffer, expectType, true, timer.C)
 }
 
 func (r *TrzszRelay) sendStringToClient(typ string, str string) error {
